@@ -583,49 +583,56 @@ class GenericDriver(Driver, BaseGenericDriver):
 
         _read_delay = 0.1 if read_delay <= 0 else read_delay
 
-        while True:
-            try:
-                read_output += self.channel.read()
-            except ScrapliTimeout as exc:
-                self.timeout_transport = original_transport_timeout
+        matched_callback: Optional["ReadCallback"] = None
 
-                raise ScrapliTimeout("timeout during read in read_callback operation") from exc
+        try:
+            while matched_callback is None:
+                try:
+                    read_output += self.channel.read()
+                except ScrapliTimeout as exc:
+                    raise ScrapliTimeout("timeout during read in read_callback operation") from exc
 
-            for callback in callbacks:
-                _run_callback = callback.check(read_output=read_output)
+                for callback in callbacks:
+                    _run_callback = callback.check(read_output=read_output)
 
-                if (
-                    _run_callback is True
-                    and callback.only_once is True
-                    and callback._triggered is True  # pylint: disable=W0212
-                ):
-                    self.logger.warning(
-                        f"callback {callback.name} matches but is set to 'only_once', "
-                        "skipping this callback"
-                    )
+                    if (
+                        _run_callback is True
+                        and callback.only_once is True
+                        and callback._triggered is True  # pylint: disable=W0212
+                    ):
+                        self.logger.warning(
+                            f"callback {callback.name} matches but is set to 'only_once', "
+                            "skipping this callback"
+                        )
 
-                    continue
+                        continue
 
-                if _run_callback is True:
-                    self.logger.info(f"callback {callback.name} matched, executing")
+                    if _run_callback is True:
+                        matched_callback = callback
+                        break
+                else:
+                    time.sleep(_read_delay)
+        finally:
+            # the temporary transport timeout must never outlive the read loop: put it back before
+            # running a callback and however the loop ends (timeout, connection lost, an exception
+            # while checking a callback, task cancelled, ...)
+            self.timeout_transport = original_transport_timeout
 
-                    self.timeout_transport = original_transport_timeout
+        self.logger.info(f"callback {matched_callback.name} matched, executing")
 
-                    callback.run(driver=self)
+        matched_callback.run(driver=self)
 
-                    if callback.complete:
-                        self.logger.debug("callback complete is true, done with read_callback")
-                        return None
+        if matched_callback.complete:
+            self.logger.debug("callback complete is true, done with read_callback")
+            return None
 
-                    if callback.reset_output:
-                        read_output = b""
+        if matched_callback.reset_output:
+            read_output = b""
 
-                    return self.read_callback(
-                        callbacks=callbacks,
-                        initial_input=None,
-                        read_output=read_output,
-                        read_delay=callback.next_delay,
-                        read_timeout=callback.next_timeout,
-                    )
-
-            time.sleep(_read_delay)
+        return self.read_callback(
+            callbacks=callbacks,
+            initial_input=None,
+            read_output=read_output,
+            read_delay=matched_callback.next_delay,
+            read_timeout=matched_callback.next_timeout,
+        )
